@@ -12,10 +12,6 @@ pub mod policy_set_errors {
 impl Clone for ast::Policy { #[verifier::external_body] fn clone(&self) -> (r: Self) ensures r == *self { unimplemented!() } }
 impl Clone for ast::Template { #[verifier::external_body] fn clone(&self) -> (r: Self) ensures r == *self { unimplemented!() } }
 impl Clone for LosslessTemplate { #[verifier::external_body] fn clone(&self) -> (r: Self) ensures r == *self { unimplemented!() } }
-impl ast::Policy {
-    /// a policy is static iff it has no link id, i.e. its id is its template's id
-    #[verifier::external_body] pub fn is_static(&self) -> (r: bool) ensures r == (self.spec_id() == self.spec_template().spec_id()) { unimplemented!() }
-}
 #[verifier::external_body] pub fn vx_pse() -> (r: PolicySetError) { unimplemented!() }
 impl vstd::std_specs::convert::FromSpecImpl<ast::PolicySetError> for PolicySetError { open spec fn obeys_from_spec() -> bool { false } uninterp spec fn from_spec(v: ast::PolicySetError) -> PolicySetError; }
 impl From<ast::PolicySetError> for PolicySetError { #[verifier::external_body] fn from(v: ast::PolicySetError) -> (r: PolicySetError) { unimplemented!() } }
@@ -33,7 +29,3 @@ impl ast::PolicyID { #[verifier::external_body] pub fn from_string(id: &PolicyId
 impl Clone for HashMap<ast::SlotId, ast::EntityUID> { #[verifier::external_body] fn clone(&self) -> (r: Self) ensures r == *self { unimplemented!() } }
 /// LosslessTemplate::link(..).expect(..): assumed not to fail after the core link succeeded (as the code comments state)
 #[verifier::external_body] pub fn vx_lossless_link(t: &LosslessTemplate, new_id: ast::PolicyID, vals: &HashMap<ast::SlotId, ast::EntityUID>) -> (r: LosslessPolicy) { unimplemented!() }
-impl ast::Template {
-    /// the template has at least one slot (cedar_policy::Template constructors reject slot-less bodies; a static policy's template has none)
-    pub uninterp spec fn spec_has_slots(&self) -> bool;
-}
